@@ -130,6 +130,8 @@ def check(ctx: Ctx) -> None:
 
     # R4: lazily evaluated results are not consumed outside the evaluator's guard
     r4_lazy(ctx)
+    # R5: the store half of a transform step on a transaction without custom captures
+    r5_transform_store(ctx, E)
     # a failing view variable makes that variable None; it does not decide membership
     from .c10 import view_verdict
     view_verdict(ctx, 'C08.R2')
@@ -201,6 +203,81 @@ def _check_site(ctx: Ctx, E: Escapes, f: FuncInfo, call: ast.Call, target: FuncI
                  f'{src(call.func)}(...) at line {call.lineno} can raise {sorted(remaining)} which the enclosing handlers {used or "(none)"} '
                  f'do not catch: evaluation failure aborts the caller instead of skipping the item; e.g. {k0} <- {remaining[k0]} '
                  f'(expression such as `{WITNESS.get(k0, "?")}`)', call)
+
+
+def _is_field_lookup(n) -> bool:
+    """transaction['field']  or  transaction.get('field'[, d])"""
+    if isinstance(n, ast.Subscript) and isinstance(n.value, ast.Name) and isinstance(n.slice, ast.Constant) and n.slice.value == 'field':
+        return True
+    return isinstance(n, ast.Call) and isinstance(n.func, ast.Attribute) and n.func.attr == 'get' and isinstance(n.func.value, ast.Name) \
+        and bool(n.args) and isinstance(n.args[0], ast.Constant) and n.args[0].value == 'field'
+
+
+def r5_transform_store(ctx: Ctx, E: Escapes) -> None:
+    """A transform step is evaluation *and* store.  The readers build transactions whose 'field' entry is None when the
+    source captures no custom column (premise, read from the repo: a dict display `'field': <x>` where <x> is `... else None` or a
+    parameter defaulting to None).  On such a transaction every dereference of the 'field' mapping in apply_transforms raises
+    AttributeError / TypeError; the property wants that transform skipped, not the row (and, through parse_generic_csv's narrow
+    row handler, the whole source) lost.  Accepted: the dereference lies in a try inside the transform loop whose handlers cover
+    both classes and do not re-raise.  A None/emptiness test of the mapping is an idiom this rule does not know: exit 2."""
+    proj = ctx.proj
+    ctx.rule('C08.R5', "apply_transforms: every dereference of the transaction's 'field' mapping (None when the source captures no custom "
+                       'column) lies in a per-transform try whose handlers cover AttributeError and TypeError: an inapplicable transform is skipped, the source is not lost', floor=2)
+    f = proj.func('merchant_utils.apply_transforms')
+    premise = []
+    for qn in ('merchant_utils.normalize_merchant', 'parsers.parse_generic_csv'):
+        g = proj.func(qn)
+        none_params = set()
+        a = g.node.args
+        pos = a.posonlyargs + a.args
+        for arg, d in zip(pos[len(pos) - len(a.defaults):], a.defaults):
+            if isinstance(d, ast.Constant) and d.value is None:
+                none_params.add(arg.arg)
+        for arg, d in zip(a.kwonlyargs, a.kw_defaults):
+            if isinstance(d, ast.Constant) and d is not None and d.value is None:
+                none_params.add(arg.arg)
+        for n in all_nodes(g.node):
+            if isinstance(n, ast.Dict):
+                for k, v in zip(n.keys, n.values):
+                    if isinstance(k, ast.Constant) and k.value == 'field':
+                        if isinstance(v, ast.IfExp) and any(isinstance(b, ast.Constant) and b.value is None for b in (v.body, v.orelse)) \
+                                or isinstance(v, ast.Name) and v.id in none_params or isinstance(v, ast.Constant) and v.value is None:
+                            premise.append(f'{g.name}:{n.lineno} `{src(k)}: {src(v)[:40]}`')
+    derefs = []
+    for n in all_nodes(f.node):
+        if isinstance(n, ast.Subscript) and _is_field_lookup(n.value):
+            derefs.append((n, 'TypeError', f"{src(n)[:50]}"))
+        elif isinstance(n, ast.Attribute) and _is_field_lookup(n.value):
+            derefs.append((n, 'AttributeError', f"{src(n)[:50]}"))
+    if not premise:
+        ctx.ok('C08.R5', f, "no reader builds a transaction with 'field': None any more; the store cannot fail on the mapping", construct='premise')
+        ctx.ok('C08.R5', f, f'{len(derefs)} dereferences, vacuous without the premise', construct='derefs')
+        return
+    if not derefs:
+        raise AnalysisError(f, "C08.R5: no dereference of the transaction's 'field' mapping found in apply_transforms (extend the idiom table)")
+    tests = [n for n in all_nodes(f.node) if isinstance(n, (ast.If, ast.IfExp, ast.While)) and any(
+        _is_field_lookup(m) for m in ast.walk(n.test))]
+    for n, cls, text in derefs:
+        loop = enclosing_loop(n, f.node)
+        covered = None
+        for t in enclosing_tries(n, f.node):
+            if loop is not None and not any(a is loop for a in ancestors(t)):
+                continue
+            types = sorted({c for h in t.handlers if handler_tail_ok(h) for c in E.handler_classes(h)})
+            if E.caught_by('AttributeError', types) and E.caught_by('TypeError', types):
+                covered = types
+                break
+        label = f'store:{text}'
+        if covered:
+            ctx.ok('C08.R5', f, f"`{text}` (line {n.lineno}) may see None ({premise[0]}); {cls} covered by per-transform handler {covered}", n, label)
+        elif tests:
+            raise AnalysisError(f, f"C08.R5: `{text}` is not covered by a per-transform handler but the mapping is tested at line {tests[0].lineno}: "
+                                   'guard idiom not in the table, cannot decide')
+        else:
+            ctx.fail('C08.R5', f, label,
+                     f"`{text}` (line {n.lineno}) dereferences the transaction's 'field' entry, which is None for sources without custom captures ({premise[0]}); "
+                     f'the {cls} is not covered by a handler inside the transform loop, so a `field.<name> = ...` transform on such a source leaves '
+                     'apply_transforms, normalize_merchant and parse_generic_csv (row handler: ValueError/IndexError only) and the whole data source is lost', n)
 
 
 ITER_CALLS = {'list', 'tuple', 'set', 'sorted', 'sum', 'any', 'all', 'min', 'max', 'next', 'len', 'join', 'extend', 'update', 'frozenset', 'enumerate', 'zip', 'map', 'filter'}
